@@ -1,0 +1,30 @@
+// © Copyright 2025-2026, Query.Farm LLC - https://query.farm
+// SPDX-License-Identifier: Apache-2.0
+
+//go:build verif
+
+package vgirpc
+
+import "unsafe"
+
+// Verification hook for property C40 (lazy set-up runs once). Add-only; compiled
+// only with -tags verif.
+
+// VerifC40Ptrs reports the backing-array addresses of the lazily computed,
+// cached values (landing / describe / not-found pages, health body, protocol
+// hash); 0 when not computed yet. A value that is computed a second time gets
+// a new backing array, so a changed address means "computed more than once".
+// Call only while no request is in flight (the reads are unsynchronised).
+func (h *HttpServer) VerifC40Ptrs() [5]uintptr {
+	p := func(b []byte) uintptr {
+		if len(b) == 0 {
+			return 0
+		}
+		return uintptr(unsafe.Pointer(&b[0]))
+	}
+	var hp uintptr
+	if h.server.protocolHash != "" {
+		hp = uintptr(unsafe.Pointer(unsafe.StringData(h.server.protocolHash)))
+	}
+	return [5]uintptr{p(h.landingHTML), p(h.describeHTML), p(h.notFoundHTML), p(h.healthBody), hp}
+}
